@@ -1606,11 +1606,14 @@ Pointset_Powerset<PSET>::ascii_load(std::istream& s) {
 
   Pointset_Powerset new_x(x.space_dim, EMPTY);
   while (sz-- > 0) {
-    PSET ph;
-    if (!ph.ascii_load(s)) {
+    // Load each disjunct in place: loading into a temporary and adding a
+    // COPY of it would drop whatever the copy constructor of PSET does not
+    // copy (e.g., the parts of a description that are not up-to-date).
+    new_x.sequence.push_back(Determinate<PSET>(PSET()));
+    new_x.reduced = false;
+    if (!new_x.sequence.back().pointset().ascii_load(s)) {
       return false;
     }
-    new_x.add_disjunct(ph);
   }
   swap(x, new_x);
 
